@@ -20,7 +20,8 @@
 (***************************************************************************)
 EXTENDS Integers, Sequences, FiniteSets, TLC
 
-CONSTANTS FileStates,   \* subset of {"v1","v2","parse","sem","empty","missing"}
+CONSTANTS RefuseSwitch, \* TRUE: the server may refuse the prepared version (the library manager's Reload returns an error)
+          FileStates,   \* subset of {"v1","v2","parse","sem","empty","missing"}
           MaxReloads,   \* concurrent reloads in flight
           Deviations,
           RecordHist
@@ -102,13 +103,25 @@ ListenNew(i) ==
     /\ UNCHANGED <<file, nextId, latestOk>>
     /\ Done([op |-> "Reload", ok |-> TRUE, serving |-> serving'])
 
+\* the server refuses the version that was prepared for it: the reload fails, what ran before goes on running, and
+\* nothing is remembered of the attempt - saving the same content again is a reload like any other
+ListenRefused(i) ==
+    /\ RefuseSwitch
+    /\ rel[i].pc = "listen" /\ HoldsOrFree(i)
+    /\ serving' = lastGood
+    /\ latestOk' = [latestOk EXCEPT !.v = lastGood]
+    /\ rel' = Remove(i)
+    /\ lock' = IF lock = rel[i].id THEN 0 ELSE lock
+    /\ UNCHANGED <<file, lastGood, nextId>>
+    /\ Done([op |-> "Reload", ok |-> FALSE, serving |-> serving', refused |-> TRUE])
+
 \* a client request: observes `serving`
 Poll ==
     /\ UNCHANGED <<file, serving, lastGood, rel, lock, nextId, latestOk>>
     /\ Done([op |-> "Poll", got |-> serving])
 
 Next == (\E f \in FileStates : Edit(f)) \/ Request
-        \/ (\E i \in 1..Len(rel) : Acquire(i) \/ StopFirst(i) \/ Prepare(i) \/ StopOld(i) \/ ListenNew(i))
+        \/ (\E i \in 1..Len(rel) : Acquire(i) \/ StopFirst(i) \/ Prepare(i) \/ StopOld(i) \/ ListenNew(i) \/ ListenRefused(i))
 Spec == Init /\ [][Next]_vars /\ WF_vars(\E i \in 1..Len(rel) : Acquire(i) \/ StopFirst(i) \/ Prepare(i) \/ StopOld(i) \/ ListenNew(i))
 
 ----------------------------------------------------------------------------
